@@ -50,7 +50,7 @@ CLAIMED = {
                 note="sampled families, not exhaustive; the corpus includes names built from computed and string indices, row names, named constants under unary minus, coefficients beyond the i64 range; differences explained by the KNOWN-SHAPE and KNOWN-NAME classes are reported as known findings, any other difference is a violation"),
     "C03": dict(level="exploration", ref="4/C03", technique="TLA+ trace validation (E2ETrace: reference interpreter Sem!Eval with complete enumeration of the declared domains) of RoocSolver + auto_solver on programs rendered from TLC-generated abstract models",
                 text="Abstract models from the generator machine (family G exhaustive, H simulated) over integer and Boolean domains are rendered to source text with minimal parentheses in two spellings and solved through the one-shot entry point; E2ETrace.tla decides satisfiability, feasibility of the returned values, the reported objective and optimality by enumerating every assignment of the declared domains.",
-                note="integer and Boolean domains only (the linearization families are re-declared over integer ranges; bounded reals are covered compositionally by C01/C02/C05); the renderer is part of the driver"),
+                note="integer and Boolean domains are enumerated completely (the linearization families are re-declared over integer ranges); family R re-declares the integer variables as bounded Reals and is judged by necessary conditions only (exact at the returned point, the grid of halves for optimality and infeasibility); the renderer is part of the driver"),
     "C18": dict(level="exploration", ref="4/C18", technique="TLA+ stage machine (Pipeline.tla) as trace specification of all public stages run in child processes under a watchdog, on valid programs, TLA+-generated mutation histories (Mutate.tla), a nesting ladder and byte noise",
                 text="Pipeline.tla states the compiler as a machine whose every stage has exactly the outcomes ok and err, with stage dependencies; each input is run through parse, format, type_check, transform, linearize, standardize and solve in a child process (panics, aborts and hangs are observed) and the recorded stage outcomes must be a behaviour of that machine within the time limit.",
                 note="hangs are observable only as the watchdog limit (12 s per stage); memory safety is out of scope; inputs are sampled; widths stay where the dense standard form is a few million entries; the ladders include nests of min / max blocks and of non-range iterators to depth 64, products of sums, the operator matrix at the integer limits, flat chains on a 2 MiB thread, and the builder's sum() over 5000 variables (the child builds that model itself)"),
